@@ -5,7 +5,7 @@ from __future__ import annotations
 import importlib
 import traceback
 
-VALIDATORS = ["mc.builders.vdi"]
+VALIDATORS = ["mc.builders.vdi", "mc.builders.hdd"]
 
 
 def main() -> int:
